@@ -135,6 +135,7 @@ func All() []Val {
 		{"ia-empty", "immutable([])", imarr(), "imarray"},
 		{"ia-1", "immutable([1])", imarr(i(1)), "imarray"},
 		{"ia-123", "immutable([1, 2, 3])", imarr(i(1), i(2), i(3)), "imarray"},
+		{"ia-mixed", "immutable([[1], 2])", imarr(arr(i(1)), i(2)), "imarray"},
 		{"ia-nested", "immutable([[1], [2]])", imarr(arr(i(1)), arr(i(2))), "imarray"},
 		{"m-empty", "{}", mp(), "map"},
 		{"m-a1", "{a: 1}", mp(kv{"a", i(1)}), "map"},
